@@ -42,7 +42,8 @@ def main(argv):
             return 2
         # the implementation raised where no generated (valid) input may make it raise and the
         # harness had no handler: the property is no longer shown to hold; the input is not in hand
-        rep = core.Report(pid, tier)
+        # failing inputs found before the abort are kept (and reported first)
+        rep = core.LAST_REPORT if (core.LAST_REPORT is not None and core.LAST_REPORT.pid == pid) else core.Report(pid, tier)
         rep.notes.append('check aborted by an exception raised inside the implementation')
         rep.unproved('the implementation raised %r at %s:%d (%s) during the check; run aborted' % (
             e, inner[-1].filename, inner[-1].lineno, inner[-1].name),
